@@ -273,7 +273,9 @@ def ping (args : List Arg) : Reply D R :=
   | [] => .pong
   | a :: _ => .echo a
 
-def registerReplica (s : Server D) (c : Nat) : Server D := { s with replicas := c :: s.replicas }
+/-- `ReplicationManager::add_replica`: a map keyed by the connection id (entries are never removed). -/
+def registerReplica (s : Server D) (c : Nat) : Server D :=
+  { s with replicas := if c ∈ s.replicas then s.replicas else c :: s.replicas }
 
 /-- `handle_sync_command` on a master.  SYNC: always a full resynchronisation.  PSYNC: arity 2, both bulk,
     offset `-1` or a u64; partial resynchronisation (`+CONTINUE`, nothing else) when an id other than `?`
